@@ -1,7 +1,216 @@
 import FinamModel.SpillLemmas
+/-!
+  C10 — spilling data to disk is invisible and leaves no files behind.
+
+  Model: `FinamModel/Spill.lean` (`stepS` mirrors `_pack` / `_unpack`, the eviction loops with
+  `os.remove`, `finalize`, and the read path of each buffering slot kind with `_unpack` where the code
+  calls it).  Reference: `stepR`, the same slot holding every value in RAM — it is built from the
+  models of C09 (`lookup`), C11 (`TA.getData`) and C12 (`TI.avgInterp`, `TI.sumInterp`) and knows
+  nothing about files.  No precondition on the event history is needed.
+-/
 namespace Finam.Props.C10
 open Finam Finam.SP
 
-theorem placeholder_partial : val (.inRam 1 8) = 1 := rfl
+def finalR (k : SlotKind) : RState → List SP.Ev → RState
+  | r, [] => r
+  | r, ev :: evs => finalR k (stepR k r ev).1 evs
+
+theorem sim_run (c : Cfg) (hu : c.unpackUnits = c.inUnits) : ∀ (evs : List SP.Ev) (s : SState) (r : RState),
+    Sim c s r → runS c s evs = runR c.kind r evs ∧ Sim c (finalS c s evs) (finalR c.kind r evs) := by
+  intro evs
+  induction evs with
+  | nil => intro s r h; exact ⟨rfl, h⟩
+  | cons ev evs ih =>
+    intro s r h
+    obtain ⟨h1, h2⟩ := sim_step c hu s r h ev
+    obtain ⟨h3, h4⟩ := ih _ _ h2
+    exact ⟨by simp only [runS, runR, h1, h3], h4⟩
+
+/-- **C10, transparency.** For every slot kind (output with any number of end points, next, previous,
+    linear, step at any position, stack, average and sum in every configuration), every memory limit
+    (none, negative, zero, any value — so also limits crossed in the middle of the run), every
+    location, and every history of publications (with arbitrary payload sizes), requests and
+    finalisation, every answer of the spilling slot — delivered values or error class — is the answer
+    of the same slot holding everything in RAM. -/
+theorem spill_transparent (kind : SlotKind) (limit : Option Int) (loc : Option String) (slotId units nEnds : Nat)
+    (evs : List SP.Ev) :
+    runS (mkCfg kind limit loc slotId units) (initS nEnds) evs = runR kind (initR nEnds) evs :=
+  (sim_run (mkCfg kind limit loc slotId units) rfl evs _ _ (sim_init _ nEnds)).1
+
+/-- … hence identical to the run without a limit. -/
+theorem spill_transparent_vs_no_limit (kind : SlotKind) (limit : Option Int) (loc : Option String)
+    (slotId units nEnds : Nat) (evs : List SP.Ev) :
+    runS (mkCfg kind limit loc slotId units) (initS nEnds) evs =
+    runS (mkCfg kind none loc slotId units) (initS nEnds) evs := by
+  rw [spill_transparent, spill_transparent]
+
+/-- non-vacuity: a limit crossed in the middle of the run (first entry in RAM, later ones on disk),
+    linear interpolation between a RAM and a disk entry, eviction of both kinds, finalisation -/
+def exCfg : Cfg := mkCfg .linear (some 16) (some "spill") 7 0
+def exEvs : List SP.Ev := [.push 0 1 16, .pull 0 0, .push 4 3 16, .push 8 11 16, .pull 0 2, .pull 0 6, .pull 0 9,
+                        .push 12 0 16, .pull 0 8, .finalize]
+example :
+    runS exCfg (initS 1) exEvs =
+      [none, some (.ok [1]), none, none, some (.ok [2]), some (.ok [7]), some (.error .timeErr), none,
+       some (.ok [11]), none] ∧
+    (statesS exCfg (initS 1) exEvs).map (fun s => s.fs.map (·.1.n)) =
+      [[], [], [0], [0, 1], [0, 1], [0, 1], [0, 1], [0, 1], [1], []] ∧
+    (statesS exCfg (initS 1) exEvs).map (·.total) = [16, 16, 16, 16, 16, 0, 0, 16, 16, 16] := by
+  decide +kernel
+
+/-! ### Files -/
+
+theorem sim_reach (c : Cfg) (hu : c.unpackUnits = c.inUnits) (nEnds : Nat) (evs : List SP.Ev) :
+    Sim c (finalS c (initS nEnds) evs) (finalR c.kind (initR nEnds) evs) :=
+  (sim_run c hu evs _ _ (sim_init c nEnds)).2
+
+/-- **C10, placement.** In every reachable state every spill file on disk lies directly in the
+    configured location (`memory_location or ""`), carries the slot's identity, and is named by the
+    buffer — there are no stray files. -/
+theorem files_under_location (kind : SlotKind) (limit : Option Int) (loc : Option String)
+    (slotId units nEnds : Nat) (evs : List SP.Ev) :
+    let s := finalS (mkCfg kind limit loc slotId units) (initS nEnds) evs
+    (∀ p ∈ s.fs, p.1.dir = loc.getD "" ∧ p.1.slot = slotId) ∧ s.fs.map (·.1) = diskFiles s.data := by
+  intro s
+  have h := (sim_reach (mkCfg kind limit loc slotId units) rfl nEnds evs).finv
+  refine ⟨?_, h.keys⟩
+  intro p hp
+  have hm : p.1 ∈ s.fs.map (·.1) := List.mem_map_of_mem hp
+  rw [h.keys] at hm
+  obtain ⟨_, h2, h3⟩ := h.fresh _ hm
+  exact ⟨h3, h2⟩
+
+/-- every file the slot ever created was created in the configured location -/
+theorem created_under_location (c : Cfg) : ∀ (evs : List SP.Ev) (s : SState),
+    (∀ f ∈ s.created, f.dir = c.loc.getD "" ∧ f.slot = c.slotId) →
+    ∀ f ∈ (finalS c s evs).created, f.dir = c.loc.getD "" ∧ f.slot = c.slotId := by
+  intro evs
+  induction evs with
+  | nil => intro s h; exact h
+  | cons ev evs ih =>
+    intro s h
+    apply ih
+    cases ev with
+    | push t v size =>
+      simp only [stepS, pack]
+      split
+      · intro f hf
+        rcases List.mem_append.mp hf with h1 | h1
+        · exact h f h1
+        · simp only [List.mem_singleton] at h1; subst h1; exact ⟨rfl, rfl⟩
+      · exact h
+    | pull k t =>
+      simp only [stepS]
+      split
+      · exact h
+      · split
+        · exact h
+        · split <;> exact h
+    | finalize =>
+      simp only [stepS]
+      split <;> exact h
+
+/-- **C10, nothing left behind.** Finalising after any history removes every spill file of the slot
+    (and never fails: each buffered file still exists). -/
+theorem finalize_leaves_no_files (kind : SlotKind) (limit : Option Int) (loc : Option String)
+    (slotId units nEnds : Nat) (evs : List SP.Ev) :
+    let s := finalS (mkCfg kind limit loc slotId units) (initS nEnds) (evs ++ [SP.Ev.finalize])
+    s.fs = [] ∧ s.data = [] := by
+  intro s
+  have hfin : ∀ (c : Cfg) (evs : List SP.Ev) (s0 : SState), finalS c s0 (evs ++ [SP.Ev.finalize]) =
+      (stepS c (finalS c s0 evs) .finalize).1 := by
+    intro c evs
+    induction evs with
+    | nil => intro s0; rfl
+    | cons ev evs ih => intro s0; simp only [List.cons_append, finalS]; exact ih _
+  have h := (sim_reach (mkCfg kind limit loc slotId units) rfl nEnds evs).finv
+  have hs : s = (stepS (mkCfg kind limit loc slotId units)
+      (finalS (mkCfg kind limit loc slotId units) (initS nEnds) evs) .finalize).1 := hfin _ _ _
+  rw [hs]
+  simp only [stepS, finalizeFs_spec _ _ _ _ h]
+  trivial
+
+example : (finalS exCfg (initS 1) (exEvs.take 8)).fs.length = 2 ∧
+    (finalS exCfg (initS 1) (exEvs.take 8 ++ [SP.Ev.finalize])).fs = [] := by decide +kernel
+
+/-- without a limit (or with a negative one) nothing is ever written -/
+theorem no_limit_no_files (kind : SlotKind) (limit : Option Int) (hl : ∀ l, limit = some l → l < 0)
+    (loc : Option String) (slotId units : Nat) : ∀ (evs : List SP.Ev) (s : SState), s.created = [] →
+    (finalS (mkCfg kind limit loc slotId units) s evs).created = [] := by
+  intro evs
+  induction evs with
+  | nil => intro s h; exact h
+  | cons ev evs ih =>
+    intro s h
+    apply ih
+    cases ev with
+    | push t v size =>
+      have hsp : spills (mkCfg kind limit loc slotId units) s.total size = false := by
+        simp only [spills, mkCfg]
+        cases hlim : limit with
+        | none => rfl
+        | some l =>
+          have := hl l hlim
+          have : ¬ (0 ≤ l) := by omega
+          simp [this]
+      simp only [stepS, pack, hsp, Bool.false_eq_true, if_false]
+      exact h
+    | pull k t =>
+      simp only [stepS]
+      split
+      · exact h
+      · split
+        · exact h
+        · split <;> exact h
+    | finalize =>
+      simp only [stepS]
+      split <;> exact h
+
+/-! ### Memory accounting -/
+
+def isFinalize : SP.Ev → Bool
+  | .finalize => true
+  | _ => false
+
+/-- **C10, accounting.** As long as the slot has not been finalised, `_total_mem` is exactly the number
+    of bytes of the entries held in RAM (so the limit test of `_pack` compares what it should). -/
+theorem mem_accounting (kind : SlotKind) (limit : Option Int) (loc : Option String)
+    (slotId units nEnds : Nat) (evs : List SP.Ev) (hnf : evs.all (fun e => !isFinalize e) = true) :
+    let s := finalS (mkCfg kind limit loc slotId units) (initS nEnds) evs
+    s.total = ramBytes s.data := by
+  have key : ∀ (c : Cfg), c.unpackUnits = c.inUnits → ∀ (evs : List SP.Ev) (s : SState) (r : RState), Sim c s r →
+      s.total = ramBytes s.data → evs.all (fun e => !isFinalize e) = true →
+      (finalS c s evs).total = ramBytes (finalS c s evs).data := by
+    intro c hu evs
+    induction evs with
+    | nil => intro s r _ h _; exact h
+    | cons ev evs ih =>
+      intro s r hsim hacc hnf
+      simp only [List.all_cons, Bool.and_eq_true] at hnf
+      obtain ⟨_, hsim'⟩ := sim_step c hu s r hsim ev
+      refine ih _ _ hsim' ?_ hnf.2
+      cases ev with
+      | push t v size =>
+        simp only [stepS, pack]
+        split
+        · simp only [ramBytes_append, ramBytes]; omega
+        · simp only [ramBytes_append, ramBytes]; omega
+      | pull k t =>
+        simp only [stepS]
+        split
+        · exact hacc
+        · split
+          · exact hacc
+          · rename_i m _
+            obtain ⟨total', fs', he, _, hacc'⟩ := evictS_spec c s.counter s.data s.total s.fs m hsim.finv
+            rw [he]
+            simp only
+            omega
+      | finalize => simp [isFinalize] at hnf
+  exact key _ rfl evs _ _ (sim_init _ nEnds) rfl hnf
+
+example : (finalS exCfg (initS 1) (exEvs.take 9)).total = 16 ∧
+    ramBytes (finalS exCfg (initS 1) (exEvs.take 9)).data = 16 ∧
+    (finalS exCfg (initS 1) (exEvs.take 9)).data.length = 2 := by decide +kernel
 
 end Finam.Props.C10
